@@ -179,7 +179,17 @@ def py_rhs(uni, rhs):
         return build_array(uni, rhs["arr"])
     if k == "num":
         return rhs["c"]
-    return np.array([float(v) for v in rhs["values"]]).reshape(tuple(rhs["shape"]))
+    nd = np.array([float(v) for v in rhs["values"]]).reshape(tuple(rhs["shape"]))
+    sub = rhs.get("subclass")
+    if sub == "masked":
+        nd = np.ma.masked_array(nd)                 # no entry masked: the same numbers in an ndarray subclass
+    elif sub == "custom":
+        class Tagged(np.ndarray):
+            pass
+        nd = nd.view(Tagged)
+    elif sub == "memory":
+        nd = np.asfortranarray(nd) if nd.ndim >= 2 else (nd[::1] if nd.ndim == 1 else nd)
+    return nd
 
 
 def observe_raw(fa):
